@@ -3,6 +3,7 @@ mod dump;
 mod enc;
 mod gen_enc;
 mod gen_dec;
+mod gen_c17;
 mod gen_c06;
 mod gen_c07;
 mod gen_c08;
@@ -41,6 +42,8 @@ fn main() {
             Some("c12") => gen_c12::gen(&mut out, seed, thorough),
             Some(w @ ("c01" | "c02" | "c13" | "c16" | "c18" | "c19" | "c11")) => gen_enc::gen(&mut out, w, seed, thorough),
             Some("c05d") => gen_dec::gen_c05(&mut out, seed, thorough),
+            Some("c14") => gen_dec::gen_c14(&mut out, seed, thorough),
+            Some("c17") => gen_c17::gen(&mut out, seed, thorough),
             Some("c15") => gen_dec::gen_c15(&mut out, seed, thorough),
             Some("c08") => gen_c08::gen(&mut out, seed, thorough),
             Some("c07") => gen_c07::gen(&mut out, seed, thorough),
